@@ -155,6 +155,16 @@ func (s *Solver) solve(o *Oblig) {
 	if res.verdict == "unsat" || (o.Cover && res.verdict == "sat") {
 		os.Remove(file)
 	}
+	if !o.Cover && res.verdict != "unsat" && res.verdict != "sat" {
+		// candidate counterexample from the relaxed query (quantified
+		// hypotheses dropped); it only counts if the replay confirms it
+		rf := filepath.Join(s.dir, key+".relaxed.smt2")
+		os.WriteFile(rf, []byte(o.scriptOpt(true, true)), 0o644)
+		rr := runSolver(solvers[0], rf, t1, s.seed)
+		if rr.verdict == "sat" {
+			o.Relaxed = rr.out
+		}
+	}
 }
 
 func (s *Solver) solveAll(obs []*Oblig, workers int) {
